@@ -423,9 +423,11 @@ func init() {
 		a := ex.bigAbs(ex.bigLoad(st, args[0]))
 		if ex.IntMode && !a.IsConst() && a.Hi == nil {
 			// unbounded value: only the length is modelled, as an arbitrary n >= 0 with n == 0 <=> a == 0
-			n := NewVar("bitsLen", IntSort)
-			n.Lo = bigZero
-			st.AuxVars = append(st.AuxVars, n)
+			// (the length is a function of the value: the same term gets the same variable)
+			n := bitsLenVar(a)
+			if n.Op == "var" {
+				st.AuxVars = append(st.AuxVars, n)
+			}
 			st.Assume(ICmpRaw("<=", IntC64(0), n))
 			st.Assume(Eq(Eq(n, IntC64(0)), Eq(a, IntC64(0))))
 			return []Value{SliceV{SymLen: n}}
@@ -601,7 +603,20 @@ func (ex *Exec) bigBitLen(st *State, a *Term) *Term {
 		return r
 	}
 	if abs.Hi == nil {
-		unsupported("int-mode BitLen of unbounded value")
+		// unbounded value: an arbitrary bit length tied to the (equally abstract) word length:
+		// 64*(words-1) < bits <= 64*words, bits == 0 <=> value == 0
+		w := bitsLenVar(abs)
+		b := bitLenVar(abs)
+		if w.Op == "var" {
+			st.AuxVars = append(st.AuxVars, w)
+		}
+		st.AuxVars = append(st.AuxVars, b)
+		st.Assume(ICmpRaw("<=", IntC64(0), w))
+		st.Assume(Eq(Eq(w, IntC64(0)), Eq(abs, IntC64(0))))
+		st.Assume(ICmpRaw("<=", b, IMul(IntC64(64), w)))
+		st.Assume(ICmpRaw("<", IMul(IntC64(64), ISub(w, IntC64(1))), Ite(Eq(w, IntC64(0)), IntC64(1), b)))
+		st.Assume(ICmpRaw("<=", IntC64(0), b))
+		return b
 	}
 	maxBits := abs.Hi.BitLen()
 	if maxBits > 4096 {
